@@ -10,6 +10,7 @@ ASSUME = [
     "times outside the int64 nanosecond range (e.g. the zero time.Time) are outside the domain: Time.UnixNano is undefined for them",
     "the in-memory pipes are unbounded (an OS pipe holds 64 KB): a peer that stops reading while more than that is in flight can still block udf.Server.abort/Stop for ever (docs/notes/C07.md)",
     "keepalive sessions use a 400 ms timeout and wait for round trips counted on the wire; a watchdog that fires because the machine is busy repeats the session with a longer timeout (5 attempts, then exit 2) and never yields a verdict",
+    "process sessions use a real os/exec child (the harness binary re-executed) and OS pipes; the backlog stays below the 64 KB an OS pipe holds",
     "fault scenarios run one child process each; a hang is declared after 60 s (the scenarios need milliseconds), a dead child is a line no action of the specification explains",
     "the model's pipes carry whole messages; the byte level is UDFFraming (radix 2 in the exhaustive instances, radix 128 against the real reader, sizes above 2^30 treated as too large because TLC integers are 32 bit)",
     "TLC fingerprint collisions are negligible; the libflux link stub is never executed",
@@ -91,6 +92,10 @@ def run(sc, tier, seed):
          "session on the real udf.Server not explained by the protocol model (echo / wire / snapshot / stop)"),
         # the same below a real UDFNode in real tasks
         ("c19task", "UDFProtoTraceMC.tla", "UDFProtoTrace.cfg", "task with a UDF node not explained by the protocol model"),
+        # kapacitor.UDFProcess over the real exec commander and a real child process (this binary as `kvh c19child`):
+        # the child exits with its responses unread in the stdout pipe, then the consumer starts
+        ("c19proc", "UDFProtoTraceMC.tla", "UDFProtoTrace.cfg",
+         "UDF process session not explained by the protocol model (responses written before the process exited were lost / Close failed)"),
     ]
     for drv, module, cfg, what in stages:
         try:
